@@ -42,9 +42,13 @@ Lemma clone_flag_fixed :
   kids h 1 = [2; 3] /\ prev_sib h 3 = Some 2.
 Proof. vm_compute. split; reflexivity. Qed.
 
+(** /repo before the C13-fragment-into-document, -replace-self-docelem, -normalize-empty-text, -rename-name-check,
+    -setattrnode-idmap and -setidattrnode-identity patches: F18 and F26 repaired, the later switches as found *)
+Definition cfg_head : cfg := mkCfg true true false false false false false false.
+
 Lemma frag_into_doc_found :
   let h0 := fst (run_cfg cfg_fixed (init_heap 1) (removelast w_fragdoc)) in
-  let '(h1, r) := step h0 (OAppend 0 1) in
+  let '(h1, r) := step_cfg cfg_head h0 (OAppend 0 1) in
   r = RErr HIERARCHY /\ kids h0 0 = [] /\ kids h1 0 = [2] /\ kids h1 1 = [3] /\
   sstep (abs h0) (OAppend 0 1) = (abs h0, RErr HIERARCHY).
 Proof. vm_compute. repeat split; reflexivity. Qed.
